@@ -51,6 +51,27 @@ let show_obs = function
 
 let flags f = (String.contains f 'c', String.contains f 'n')
 
+(* Coq syntax of a result, for the vm_compute cross-check of the extraction *)
+let tok_coq = function
+  | ILLEGAL -> "ILLEGAL" | EOF -> "EOF" | COMMENT -> "COMMENT" | ATTRIBUTE -> "ATTRIBUTE"
+  | IDENT -> "IDENT" | INT -> "INT" | FLOAT -> "FLOAT" | STRING -> "STRING"
+  | INTERPOLATION -> "INTERPOLATION" | BOTTOM -> "BOTTOM"
+  | ADD -> "ADD" | SUB -> "SUB" | MUL -> "MUL" | QUO -> "QUO" | AND -> "AND" | OR -> "OR"
+  | LAND -> "LAND" | LOR -> "LOR" | BIND -> "BIND" | EQL -> "EQL" | LSS -> "LSS" | GTR -> "GTR"
+  | NOT -> "NOT" | ARROW -> "ARROW" | NEQ -> "NEQ" | LEQ -> "LEQ" | GEQ -> "GEQ" | MAT -> "MAT"
+  | NMAT -> "NMAT" | LPAREN -> "LPAREN" | LBRACK -> "LBRACK" | LBRACE -> "LBRACE" | COMMA -> "COMMA"
+  | PERIOD -> "PERIOD" | ELLIPSIS -> "ELLIPSIS" | RPAREN -> "RPAREN" | RBRACK -> "RBRACK" | RBRACE -> "RBRACE"
+  | SEMICOLON -> "SEMICOLON" | COLON -> "COLON" | OPTION -> "OPTION" | TILDE -> "TILDE"
+  | IF -> "IF" | ELSE -> "ELSE" | FOR -> "FOR" | IN -> "IN" | LET -> "LET" | TRY -> "TRY"
+  | FALLBACK -> "FALLBACK" | OTHERWISE -> "OTHERWISE" | FUNC -> "FUNC"
+  | TRUE -> "TRUE" | FALSE -> "FALSE" | NULL -> "NULL"
+let zc i = if i < 0 then Printf.sprintf "(%d)" i else string_of_int i
+let obs_coq = function
+  | ObsTok (r, e, n, d) ->
+    Printf.sprintf "ObsTok (mkRes %s %s %b) %s %s %d" (tok_coq r.r_tok) (zc (int_of_z r.r_start)) r.r_elided
+      (zc (int_of_z e)) (zc (int_of_z n)) (int_of_nat d)
+  | ObsResume (e, n, d) -> Printf.sprintf "ObsResume %s %s %d" (zc (int_of_z e)) (zc (int_of_z n)) (int_of_nat d)
+
 let handle line =
   match String.split_on_char ' ' line with
   | ["SCAN"; fl; hsrc; letters; digits; ops] ->
@@ -61,6 +82,22 @@ let handle line =
     let (l, st) = match r with
       | RunOk l -> (l, "OK") | RunMisuse l -> (l, "MISUSE") | RunPanic l -> (l, "PANIC") | RunFuel l -> (l, "FUEL") in
     String.concat " " (List.map show_obs l @ [st])
+  | ["VSCAN"; fl; hsrc; letters; digits; ops] ->
+    (* the same run, printed as a Coq proposition to be checked by vm_compute *)
+    let (c, n) = flags fl in
+    let src = unhex hsrc in
+    let opl = if ops = "-" then [] else
+        List.init (String.length ops) (fun i -> if ops.[i] = 'R' then OResume else OScan) in
+    let r = c02_run (bytes_of_string src) (table letters) (table digits) c n opl in
+    let (l, st) = match r with
+      | RunOk l -> (l, "RunOk") | RunMisuse l -> (l, "RunMisuse") | RunPanic l -> (l, "RunPanic") | RunFuel l -> (l, "RunFuel") in
+    let nl xs = "[" ^ String.concat "; " xs ^ "]" in
+    let ztab t = nl (List.map (fun z -> zc (int_of_z z)) (table t)) in
+    Printf.sprintf "c02_run (%s%%N) %s %s %b %b %s = %s %s"
+      (nl (List.init (String.length src) (fun i -> string_of_int (Char.code src.[i]))))
+      (ztab letters) (ztab digits) c n
+      (nl (List.map (function OScan -> "OScan" | OResume -> "OResume") opl))
+      st (nl (List.map obs_coq l))
   | ["TOK"; fl; hsrc; letters; digits] ->
     let (c, n) = flags fl in
     (match c02_tokenize (bytes_of_string (unhex hsrc)) (table letters) (table digits) c n with
